@@ -14,6 +14,12 @@
 (*            nq      the q0.. columns times L/(2 pi S), as integer vectors*)
 (*            nq_ok   1 iff integral to 1e-9,                              *)
 (*            fft     number of FFT columns]                               *)
+(* Multi-call sessions: records that carry ses (session = one shared        *)
+(* snapshot object), key (identity of the call: routine and arguments),    *)
+(* dig (digest class of everything the call returned) and sd (digest class *)
+(* of the shared snapshot and argument arrays after the call, 0 = as       *)
+(* before the session) are also checked against the history kept in memo:  *)
+(* no call changes its inputs, the same call returns the same result.      *)
 (* The spec decides these discrete observables (Why names the failing      *)
 (* clause) and prints, per accepted record, the expected real-valued       *)
 (* columns as terms (the same case operators as direction A).              *)
@@ -22,8 +28,8 @@ EXTENDS Conditional, Json, IOUtils
 
 Tr == ndJsonDeserialize(IOEnv.TRACE_FILE)
 
-VARIABLES l, bad
-vars == <<l, bad>>
+VARIABLES l, bad, memo      \* memo: set of <<session, call key, result digest>> seen so far
+vars == <<l, bad, memo>>
 
 WhyG(rec) ==
   LET nb == GBins(rec) IN
@@ -45,15 +51,22 @@ WhyS(rec) ==
       ELSE IF rec.obs.groups # Len(gs) THEN "GroupingByNorm"
       ELSE ""
 
-Why(rec) == IF rec.op = "gr" THEN WhyG(rec) ELSE WhyS(rec)
+InSession(rec) == "ses" \in DOMAIN rec
+WhyH(rec) ==
+  IF ~InSession(rec) THEN ""
+  ELSE IF rec.sd # 0 THEN "InputChanged"
+  ELSE IF \E p \in memo : p[1] = rec.ses /\ p[2] = rec.key /\ p[3] # rec.dig THEN "RepeatedCallDiffers"
+  ELSE ""
+Why(rec) == LET w == IF rec.op = "gr" THEN WhyG(rec) ELSE WhyS(rec) IN IF w # "" THEN w ELSE WhyH(rec)
 Expected(rec) == (IF rec.op = "gr" THEN GCase(rec, WHist(rec)) ELSE SCase(rec)) @@ [rec |-> l]
 
-Init == l = 1 /\ bad = ""
+Init == l = 1 /\ bad = "" /\ memo = {}
 Step == /\ l <= Len(Tr) /\ bad = ""
         /\ LET w == Why(Tr[l]) IN
            IF w = "" THEN /\ PrintT(ToJson(Expected(Tr[l])))
                           /\ l' = l + 1 /\ bad' = ""
-           ELSE /\ bad' = w /\ UNCHANGED l
+                          /\ memo' = IF InSession(Tr[l]) THEN memo \cup {<<Tr[l].ses, Tr[l].key, Tr[l].dig>>} ELSE memo
+           ELSE /\ bad' = w /\ UNCHANGED <<l, memo>>
 Next == Step
 Spec == Init /\ [][Next]_vars
 
